@@ -44,7 +44,7 @@ def _setup(e, n, with_root):
 
 
 @with_env("taproot")
-def _agg_path(e, n, with_root, tamper):
+def _agg_path(e, n, with_root, tamper, prior=False):
     # the additive-structure / injectivity axioms are only needed to prove that an ALTERED sum is rejected
     e.grp.injective_x = tamper
     e.fld.link_differences = tamper
@@ -55,21 +55,33 @@ def _agg_path(e, n, with_root, tamper):
     def wit(env):
         return {"n": n, "d": [env[f"d{i}"] for i in range(n)], "k": [[env[f"k{i}a"], env[f"k{i}b"]] for i in range(n)],
                 "msg": bytes_env(env, "msg", 32).hex(), "root": bytes_env(env, "root", 32).hex() if with_root else "",
-                "delta": env.get("delta", 0)}
+                "delta": env.get("delta", 0), "prior": [[env[f"o{i}a"], env[f"o{i}b"]] for i in range(n)] if prior else None}
     try:
         musig = tm.MuSigTapScript(pts)
+        mine = tm.MuSigTapScript(pts) if prior else musig
     except AttributeError:
         return "agg-infinity"  # aggregate key at infinity: excluded (stated assumption)
     assume(wrapb(core.b_not(F.is_zero_cond(field.lift_si(musig.point.d)))))
+    if prior:
+        # history: participant 0 keeps its own MuSigTapScript object, which already went through an abandoned attempt for the same
+        # message with other nonces (coefficient and k evaluated); it then joins this session with the same object
+        old = [(SI.var(f"o{i}a", 1, N - 1), SI.var(f"o{i}b", 1, N - 1)) for i in range(n)]
+        try:
+            osums = mine.nonce_sums([(a * e.G, b * e.G) for a, b in old])
+            mine.compute_r(osums, msg)
+            mine.compute_k(old[0], osums, msg)
+        except AttributeError:
+            return "infinity"
     pairs = [(a * e.G, b * e.G) for a, b in nonces]
     sums = musig.nonce_sums(pairs)
     try:
         r = musig.compute_r(sums, msg)
         assume(wrapb(core.b_not(F.is_zero_cond(field.lift_si(r.d)))))
         s_sum = 0
-        for (a, b), priv in zip(nonces, privs):
-            k = musig.compute_k((a, b), sums, msg)
-            s_sum = s_sum + musig.sign(priv, k, r, msg, root)
+        for idx, ((a, b), priv) in enumerate(zip(nonces, privs)):
+            inst = mine if idx == 0 else musig
+            k = inst.compute_k((a, b), sums, msg)
+            s_sum = s_sum + inst.sign(priv, k, r, msg, root)
     except AttributeError:
         return "infinity"  # a nonce sum / tweaked key at infinity: excluded (stated assumption)
     if tamper:
@@ -93,8 +105,8 @@ def _agg_path(e, n, with_root, tamper):
     return "valid"
 
 
-def ob_aggregate(n, with_root, tamper):
-    r = sym_run(lambda: _agg_path(n, with_root, tamper), mode="int", timeout_ms=120000, max_paths=6000)
+def ob_aggregate(n, with_root, tamper, prior=False):
+    r = sym_run(lambda: _agg_path(n, with_root, tamper, prior), mode="int", timeout_ms=120000, max_paths=6000, max_violations=6)
     want = "'rejected'" if tamper else "'valid'"
     if want not in r["classes"]:
         r["inconclusive"].append(f"reachability twin: class {want} never reached")
@@ -113,13 +125,23 @@ def replay_aggregate(w):
     msg = bytes.fromhex(w["msg"])
     root = bytes.fromhex(w["root"])
     musig = taproot.MuSigTapScript(pts)
+    mine = musig
+    if w.get("prior"):
+        mine = taproot.MuSigTapScript(pts)
+        old = [tuple(x) for x in w["prior"]]
+        if old == [tuple(x) for x in w["k"]]:
+            old = [(a + 1, b + 2) for a, b in old]
+        osums = mine.nonce_sums([(a * pecc.G, b * pecc.G) for a, b in old])
+        mine.compute_r(osums, msg)
+        mine.compute_k(old[0], osums, msg)
     pairs = [(a * pecc.G, b * pecc.G) for a, b in w["k"]]
     sums = musig.nonce_sums(pairs)
     r = musig.compute_r(sums, msg)
     s_sum = 0
-    for (a, b), priv in zip(w["k"], privs):
-        k = musig.compute_k((a, b), sums, msg)
-        s_sum += musig.sign(priv, k, r, msg, root)
+    for idx, ((a, b), priv) in enumerate(zip(w["k"], privs)):
+        inst = mine if idx == 0 else musig
+        k = inst.compute_k((a, b), sums, msg)
+        s_sum += inst.sign(priv, k, r, msg, root)
     ext = musig.point.tweaked_key(root) if root else musig.point.even_point()
     delta = w.get("delta", 0)
     try:
@@ -233,4 +255,7 @@ def obligations(tier):
                 # the tweaked, altered case needs ~7 CPU-minutes: thorough tier only
                 obs.append(Ob("O1-altered", ob_aggregate, {"n": n, "with_root": wr, "tamper": True}, replay="aggregate", budget_s=4000))
         obs.append(Ob("O2-order", ob_order, {"n": n}, replay="order", budget_s=1500))
+        if n == 2 or not q:
+            obs.append(Ob("O1-aggregate-history", ob_aggregate, {"n": n, "with_root": False, "tamper": False, "prior": True}, replay="aggregate",
+                          budget_s=3000))
     return obs
